@@ -77,7 +77,7 @@ func (b *c01FileBackend) leaveLockFile(name, kind string) error {
 	}
 	var content []byte
 	switch kind {
-	case "empty":
+	case "empty", "empty-fresh":
 	case "stale":
 		ts := time.Now().Add(-time.Hour)
 		content, _ = json.Marshal(map[string]any{"created": ts, "updated": ts})
@@ -88,7 +88,16 @@ func (b *c01FileBackend) leaveLockFile(name, kind string) error {
 		return fmt.Errorf("unknown crash_lock kind %q", kind)
 	}
 	b.deadName, b.deadContent = filepath.Base(p), content
-	return os.WriteFile(p, content, 0o644)
+	if err := os.WriteFile(p, content, 0o644); err != nil {
+		return err
+	}
+	if kind == "empty" || kind == "stale" {
+		// the holder died long ago (an empty lock file is given up only once its modification time is older
+		// than the staleness bound; "empty-fresh": it has just died)
+		old := time.Now().Add(-time.Hour)
+		return os.Chtimes(p, old, old)
+	}
+	return nil
 }
 func (b *c01FileBackend) GetLog() *doubles.Log { return &b.log }
 func (b *c01FileBackend) LockID(name string) string {
